@@ -83,6 +83,10 @@ func newYarnSpinnerCommand(command any) (YarnSpinnerCommand, error) {
 	if commandType == nil || commandType.Kind() != reflect.Func {
 		return nil, fmt.Errorf("newYarnSpinnerCommand expects an argument which is a function")
 	}
+	if reflect.ValueOf(command).IsNil() {
+		// a nil value of a function type: there is nothing to call, reflect.Value.Call would panic
+		return nil, fmt.Errorf("newYarnSpinnerCommand expects a function which is not nil")
+	}
 
 	returnSignature, err := checkCommandOutputParameters(commandType)
 	if err != nil {
